@@ -22,7 +22,7 @@ KEY_PROPS = {
     "st.ents": "C18 C03", "st.di": "C18", "st.dt": "C18",
     "usnap": "C09 C18", "usip": "C09 C05", "rd.snap": "C09 C05 C08", "st.snap": "C09 C18", "snap": "C18 C09",
     "cfg": "C10 C13", "cs": "C10 C13", "pci": "C10", "isl": "C10",
-    "prs": "C06 C16 C15 C09", "votes": "C02 C17",
+    "prs": "C06 C16 C15 C09", "tmif": "C16", "tmib": "C16", "votes": "C02 C17",
     "roacks": "C11", "rounc": "C11", "roconf": "C11", "pri": "C11", "rss": "C11", "rd.rs": "C11",
     "ee": "C17 C15", "he": "C15", "ret": "C17 C15 C19", "xfer": "C02 C15 C17",
     "usz": "C16 C20", "res": "C14", "draws": "C19", "b": "C15", "rd.sync": "C05",
@@ -62,6 +62,20 @@ def props_of_mismatch(kv):
         if kv.get("kind") == "propose":
             ps |= {"C20"}
         return ps
+    if key == "prs" and not (kv["model"].endswith("...") or kv["impl"].endswith("...")):
+        # per-progress, per-field projection
+        fields = {1: "C06 C15", 2: "C06 C15", 3: "C09 C16 C15", 4: "C09 C16 C15", 5: "C17 C15", 6: "C16 C15", 7: "C06",
+                  8: "C10 C13", 9: "C16 C15", 10: "C16 C15", 11: "C16 C15", 12: "C16 C15", 13: "C16", 14: "C16"}
+        a = {x.split(":")[0]: x.split(":") for x in kv["model"].split("|") if x not in ("_", "")}
+        b = {x.split(":")[0]: x.split(":") for x in kv["impl"].split("|") if x not in ("_", "")}
+        ps = set()
+        if set(a) != set(b):
+            ps |= {"C10", "C13"}
+        for k in set(a) & set(b):
+            for i, (x, y) in enumerate(zip(a[k], b[k])):
+                if x != y:
+                    ps |= set(fields.get(i, "C16").split())
+        return ps or {"C16"}
     ps = set(KEY_PROPS.get(key, "").split())
     if key == "res" and kv.get("kind") in ("propose", "proposecc"):
         ps |= {"C20", "C16", "C10"}
